@@ -19,7 +19,7 @@ PAIRS = {   # header -> (env constant suffix, Cors field)
 }
 MEMBERSHIP_OK = re.compile(r"std::iter::Iterator::any|core::slice::<impl \[T\]>::contains|std::vec::Vec::<T, A>::contains|std::collections::(HashSet|BTreeSet)::<.*>::contains|<.* as std::iter::Iterator>::any")
 SUBSTRING = re.compile(r"core::str::<impl str>::(contains|find|rfind|starts_with|ends_with|matches|match_indices|eq_ignore_ascii_case)|std::string::String::(contains|find)|std::str::<impl str>::(to_lowercase|to_uppercase|to_ascii_lowercase|to_ascii_uppercase)")
-CLOSURE_OK = re.compile(r"core::str::<impl str>::(trim|trim_start|trim_end|as_bytes|len|is_empty)|.*PartialEq.*::(eq|ne)|<.* as std::ops::Deref>::deref|std::string::String::as_str|<.* as std::string::ToString>::to_string|<.* as std::clone::Clone>::clone|std::cmp::PartialEq::(eq|ne)")
+CLOSURE_OK = re.compile(r"core::str::<impl str>::(trim|trim_start|trim_end|as_bytes|len|is_empty)|std::string::String::(len|is_empty|as_bytes)|.*PartialEq.*::(eq|ne)|<.* as std::ops::Deref>::deref|std::string::String::as_str|<.* as std::string::ToString>::to_string|<.* as std::clone::Clone>::clone|std::cmp::PartialEq::(eq|ne)")
 
 
 def env_const_of(du, v, depth=0):
